@@ -112,7 +112,9 @@ TRoute ==
                    NodeRespond(n, TRUE, 0) /\ hq' = [hq EXCEPT ![n] = Tail(@)]
               [] Ev.why = "resp" /\ Ev.err ->            \* transport: not sent / broken / closed
                    /\ hq[n] = <<>>
-                   /\ IF OneWay THEN UNCHANGED vars ELSE NodeRespond(n, TRUE, 0)
+                   \* (a send-waiting one-way call takes whatever is routed to it as its confirmation)
+                   /\ IF OneWay THEN (IF ~sc.nsw /\ nprod[n] = 0 THEN Confirm(n) ELSE UNCHANGED vars)
+                      ELSE NodeRespond(n, TRUE, 0)
                    /\ UNCHANGED hq
               [] OTHER ->                                \* a reply: must be what this node's handler produced
                    /\ hq[n] # <<>> /\ ~Head(hq[n]).err
@@ -225,9 +227,11 @@ TObsCorr ==
 \* and a call the spec considers returned must have reported its end
 TQuiescent ==
   /\ Is("Quiescent") /\ Step /\ Same /\ UNCHANGED vars
-  /\ ~ENABLED Internal
+  \* (a confirmation that has not been produced is the per-node sender's business:
+  \*  whether the sender is stuck is decided by the transport checks C08/C09)
+  /\ ~ENABLED CallerInternal
   /\ (pc = "returned") => endSeen
-  /\ QuiescentOK
+  /\ (pc = "waiting" /\ ~(OneWay /\ ENABLED Internal)) => QuiescentOK
   \* C07: a call is never left waiting for a node whose connection has failed
   /\ (pc = "waiting") => \A n \in downed \cap sent : nprod[n] > 0
 
